@@ -34,7 +34,7 @@ theorem symOf_eq_t {c : Node} {t : Term} (h : symOf c = ESym.t t) : c = .term t 
   cases c <;> simp [symOf, ESym.plain] at h
   rw [h]
 
-theorem ctlRules_sym {cap : Nat} {n : Node} {rhs : List ESym} {s : ESym}
+theorem ctlRules_sym {cap : Option Nat} {n : Node} {rhs : List ESym} {s : ESym}
     (hr : rhs ∈ ctlRules cap n) (hm : s ∈ rhs) :
     (∃ c, s = symOf c) ∨ (∃ j', s = ESym.plain (.impl n j') ∧ (isLoop n = true → j' = 0)) := by
   cases n with
@@ -70,51 +70,76 @@ theorem ctlRules_sym {cap : Nat} {n : Node} {rhs : List ESym} {s : ESym}
       · simp only [List.mem_singleton] at hm
         exact .inl ⟨b, hm⟩
     | braces =>
-      simp only [ctlRules, List.mem_singleton] at hr
-      subst hr
-      simp only [List.mem_singleton] at hm
-      exact .inr ⟨_, hm, fun h => by simp [isLoop] at h⟩
+      simp only [ctlRules] at hr
+      split at hr <;>
+      · simp only [List.mem_singleton] at hr
+        subst hr
+        simp only [List.mem_singleton] at hm
+        exact .inr ⟨_, hm, fun h => by simp [isLoop] at h⟩
 
-theorem implRules_braces_sym {cap : Nat} {i : String} {b : Node} {mn : Nat} {mx : Option Nat} {j : Nat}
+theorem implRules_braces_sym {cap : Option Nat} {i : String} {b : Node} {mn : Nat} {mx : Option Nat} {j : Nat}
     {rhs : List ESym} {s : ESym}
     (hr : rhs ∈ implRules cap (.rep i .braces b mn mx) j) (hm : s ∈ rhs) :
     s = symOf b ∨ ∃ j', s = ESym.plain (.impl (.rep i .braces b mn mx) j') := by
   simp only [implRules] at hr
   split at hr
-  · simp only [List.mem_singleton] at hr
-    subst hr
-    simp only [List.mem_singleton] at hm
-    exact .inl hm
-  · split at hr
+  · -- open-ended `{n,}`: wrapper, tail, head
+    split at hr
+    · simp only [List.mem_singleton] at hr
+      subst hr
+      simp only [List.mem_singleton] at hm
+      exact .inl hm
     · split at hr
-      · simp only [List.mem_singleton] at hr
-        subst hr
-        simp only [List.mem_singleton] at hm
-        exact .inr ⟨_, hm⟩
       · simp only [List.mem_cons, List.not_mem_nil, or_false] at hr
         rcases hr with rfl | rfl
-        · simp only [List.mem_singleton] at hm
-          exact .inr ⟨_, hm⟩
+        · simp at hm
         · simp only [List.mem_cons, List.not_mem_nil, or_false] at hm
           rcases hm with rfl | rfl
           · exact .inr ⟨_, rfl⟩
           · exact .inr ⟨_, rfl⟩
+      · split at hr
+        · simp only [List.mem_singleton] at hr
+          subst hr
+          simp only [List.mem_append, List.mem_replicate, List.mem_singleton] at hm
+          rcases hm with hm | hm
+          · exact .inr ⟨_, hm.2⟩
+          · exact .inr ⟨_, hm⟩
+        · simp at hr
+  · split at hr
+    · simp only [List.mem_singleton] at hr
+      subst hr
+      simp only [List.mem_singleton] at hm
+      exact .inl hm
     · split at hr
-      · rw [List.mem_cons] at hr
-        rcases hr with rfl | hr
-        · rw [List.mem_replicate] at hm
-          exact .inr ⟨_, hm.2⟩
-        · split at hr
-          · simp at hr
-          · simp only [List.mem_singleton] at hr
-            subst hr
-            simp only [List.mem_append, List.mem_replicate, List.mem_singleton] at hm
-            rcases hm with hm | hm
-            · exact .inr ⟨_, hm.2⟩
-            · exact .inr ⟨_, hm⟩
-      · simp at hr
+      · split at hr
+        · simp only [List.mem_singleton] at hr
+          subst hr
+          simp only [List.mem_singleton] at hm
+          exact .inr ⟨_, hm⟩
+        · simp only [List.mem_cons, List.not_mem_nil, or_false] at hr
+          rcases hr with rfl | rfl
+          · simp only [List.mem_singleton] at hm
+            exact .inr ⟨_, hm⟩
+          · simp only [List.mem_cons, List.not_mem_nil, or_false] at hm
+            rcases hm with rfl | rfl
+            · exact .inr ⟨_, rfl⟩
+            · exact .inr ⟨_, rfl⟩
+      · split at hr
+        · rw [List.mem_cons] at hr
+          rcases hr with rfl | hr
+          · rw [List.mem_replicate] at hm
+            exact .inr ⟨_, hm.2⟩
+          · split at hr
+            · simp at hr
+            · simp only [List.mem_singleton] at hr
+              subst hr
+              simp only [List.mem_append, List.mem_replicate, List.mem_singleton] at hm
+              rcases hm with hm | hm
+              · exact .inr ⟨_, hm.2⟩
+              · exact .inr ⟨_, hm⟩
+        · simp at hr
 
-theorem implRules_sym {cap : Nat} {n : Node} {j : Nat} {rhs : List ESym} {p : Nat} {s : ESym}
+theorem implRules_sym {cap : Option Nat} {n : Node} {j : Nat} {rhs : List ESym} {p : Nat} {s : ESym}
     (hr : rhs ∈ implRules cap n j) (hp : rhs[p]? = some s) :
     (∃ c, s = symOf c) ∨ (∃ j', s = ESym.plain (.impl n j') ∧
       (isLoop n = true → j' = 0 ∧ j = 0 ∧ p = 1 ∧ rhs = loopRule n)) := by
@@ -156,7 +181,7 @@ theorem implRules_sym {cap : Nat} {n : Node} {j : Nat} {rhs : List ESym} {p : Na
       · exact .inr ⟨j', h, fun h => by simp [isLoop] at h⟩
 
 /-- classification of the symbols of the compiled rules -/
-theorem rulesOf_sym {G : Grammar} {cap : Nat} {y : NT} {rhs : List ESym} {p : Nat} {s : ESym}
+theorem rulesOf_sym {G : Grammar} {cap : Option Nat} {y : NT} {rhs : List ESym} {p : Nat} {s : ESym}
     (hr : rhs ∈ rulesOf G cap y) (hp : rhs[p]? = some s) :
     (∃ c, s = symOf c) ∨ (∃ n j', s = ESym.plain (.impl n j') ∧
       (isLoop n = true → j' = 0 ∧ (y = .ctl n ∨ (y = .impl n 0 ∧ p = 1 ∧ rhs = loopRule n)))) := by
@@ -185,7 +210,7 @@ theorem rulesOf_sym {G : Grammar} {cap : Nat} {y : NT} {rhs : List ESym} {p : Na
       subst h4
       exact ⟨h3, .inr ⟨rfl, h5, h6⟩⟩
 
-theorem loopNT_eq {G : Grammar} {cap : Nat} {x : NT} (h : LoopNT (compile G cap) x) :
+theorem loopNT_eq {G : Grammar} {cap : Option Nat} {x : NT} (h : LoopNT (compile G cap) x) :
     ∃ me, isLoop me = true ∧ x = .impl me 0 := by
   obtain ⟨y, rhs, a, r, hmem, hb, hh⟩ := h
   obtain ⟨n, rfl, hl⟩ := beginner_eq hb
@@ -213,7 +238,7 @@ theorem loopRule_length {me : Node} (h : isLoop me = true) : (loopRule me).lengt
   | _ => simp [isLoop] at h
 
 /-- the same for any scanner (SaneS does not mention the scanner) -/
-theorem saneS_of_rules (c : Cfg) (G : Grammar) (cap : Nat) (hr : c.rules = compile G cap)
+theorem saneS_of_rules (c : Cfg) (G : Grammar) (cap : Option Nat) (hr : c.rules = compile G cap)
     (hpred : ∀ k x rhs, rhs ∈ c.pred k x → (x, rhs) ∈ compile G cap) : SaneS c := by
   refine ⟨?_, ?_, ?_, ?_⟩
   · intro k x rhs h
@@ -256,7 +281,7 @@ theorem saneS_of_rules (c : Cfg) (G : Grammar) (cap : Nat) (hr : c.rules = compi
             · cases hbad
             · rw [hrhs2, hrhs]
 
-theorem mem_compile_iff {G : Grammar} {cap : Nat} {x : NT} {rhs : List ESym} :
+theorem mem_compile_iff {G : Grammar} {cap : Option Nat} {x : NT} {rhs : List ESym} :
     (x, rhs) ∈ compile G cap ↔ x ∈ allNTs G cap ∧ rhs ∈ rulesOf G cap x := by
   unfold compile
   simp only [List.mem_flatMap, List.mem_map]
@@ -267,11 +292,11 @@ theorem mem_compile_iff {G : Grammar} {cap : Nat} {x : NT} {rhs : List ESym} :
   · rintro ⟨h1, h2⟩
     exact ⟨x, h1, rhs, h2, rfl⟩
 
-theorem saneS_mkCfg (G : Grammar) (cap : Nat) (inp : Input) (start : String) (p : Policy)
+theorem saneS_mkCfg (G : Grammar) (v : Variant) (inp : Input) (start : String)
     (pred : Nat → NT → List (List ESym))
-    (hpred : ∀ k x rhs, rhs ∈ pred k x → rhs ∈ rulesOf G cap x ∧ x ∈ allNTs G cap) :
-    SaneS (mkCfg G cap inp start p pred) :=
-  saneS_of_rules _ G cap rfl (fun k x rhs h =>
+    (hpred : ∀ k x rhs, rhs ∈ pred k x → rhs ∈ rulesOf G v.cap x ∧ x ∈ allNTs G v.cap) :
+    SaneS (mkCfg G v inp start pred) :=
+  saneS_of_rules _ G v.cap rfl (fun k x rhs h =>
     mem_compile_iff.2 ⟨(hpred k x rhs h).2, (hpred k x rhs h).1⟩)
 
 /-! ### (C) the concrete scanners -/
@@ -308,93 +333,109 @@ theorem startsWith_take (xs : List Nat) (l : Nat) : startsWith xs (xs.take l) = 
     | zero => simp [startsWith]
     | succ l => simp [startsWith, ih]
 
-theorem scanImpl_ok (inp : Input) (R : RegexOracle) (ho : OracleOk inp R) (hc : CellsOk inp)
+/-- what every variant of the scanner guarantees of a complete match: the leaf is one the terminal accepts, it is
+    as wide as the columns it covers and it is what the input holds there; with the alignment guard a payload
+    leaf starts on a cell boundary; with the wide-character guard a bit leaf lies over a cell below 256 -/
+theorem scanV_ok (v : Variant) (inp : Input) (R : RegexOracle) (ho : OracleOk inp R) (hc : CellsOk inp)
     {t : Term} (ht : termTyped inp.isBytes t = true) {k m : Nat} {l : Leaf}
-    (h : scanImpl inp t k = some (m, l)) :
-    termOk R t (.leaf l) = true ∧ m = k + l.width ∧ LeafAt inp k l := by
+    (h : scanV v inp t k = some (m, l)) :
+    termOk R t (.leaf l) = true ∧ m = k + l.width ∧ LeafAt inp k l ∧
+      (v.aligned = true → l.isBit = false → k % 8 = 0) ∧
+      (v.wideGuard = true → l.isBit = true → ∃ cell, inp.cells[k / 8]? = some cell ∧ cell ≤ 255) := by
   cases t with
   | lit lf =>
     cases lf with
     | bit b =>
-      simp only [scanImpl] at h
+      simp only [scanV] at h
       split at h
       · cases h
       · rename_i cell hcell
         split at h
-        · rename_i hcond
-          simp only [Option.some.injEq, Prod.mk.injEq] at h
-          obtain ⟨rfl, rfl⟩ := h
-          refine ⟨by simp [termOk], by simp [Leaf.width], ?_⟩
-          exact ⟨cell, hcell, by simpa using hcond⟩
         · cases h
+        · rename_i hwide
+          split at h
+          · rename_i hcond
+            simp only [Option.some.injEq, Prod.mk.injEq] at h
+            obtain ⟨rfl, rfl⟩ := h
+            refine ⟨by simp [termOk], by simp [Leaf.width], ⟨cell, hcell, by simpa using hcond⟩, ?_, ?_⟩
+            · intro _ hb; simp [Leaf.isBit] at hb
+            · intro hv _
+              refine ⟨cell, hcell, ?_⟩
+              simp only [hv, Bool.true_and, decide_eq_true_eq] at hwide
+              omega
+          · cases h
     | text s =>
       have hb : inp.isBytes = false := by simpa [termTyped] using ht
-      simp only [scanImpl] at h
+      simp only [scanV] at h
       split at h
-      · rename_i hsw
-        simp only [Option.some.injEq, Prod.mk.injEq] at h
-        obtain ⟨rfl, rfl⟩ := h
-        simp only [mkLeaf, hb]
-        exact ⟨by simp [termOk], by simp [Leaf.width], hb, hsw⟩
       · cases h
+      · rename_i hal
+        split at h
+        · rename_i hsw
+          simp only [Option.some.injEq, Prod.mk.injEq] at h
+          obtain ⟨rfl, rfl⟩ := h
+          simp only [mkLeaf, hb]
+          refine ⟨by simp [termOk], by simp [Leaf.width], ⟨hb, hsw⟩, ?_, ?_⟩
+          · intro hv _
+            simpa [hv] using hal
+          · intro _ hbit; simp [Leaf.isBit] at hbit
+        · cases h
     | bytes bs =>
       have hb : inp.isBytes = true := by simpa [termTyped] using ht
-      simp only [scanImpl] at h
+      simp only [scanV] at h
       split at h
-      · rename_i hsw
-        simp only [Option.some.injEq, Prod.mk.injEq] at h
-        obtain ⟨rfl, rfl⟩ := h
-        simp only [mkLeaf, hb, if_true, map_mkByte_val]
-        exact ⟨by simp [termOk], by simp [Leaf.width], hb, hsw⟩
       · cases h
+      · rename_i hal
+        split at h
+        · rename_i hsw
+          simp only [Option.some.injEq, Prod.mk.injEq] at h
+          obtain ⟨rfl, rfl⟩ := h
+          simp only [mkLeaf, hb, if_true, map_mkByte_val]
+          refine ⟨by simp [termOk], by simp [Leaf.width], ⟨hb, hsw⟩, ?_, ?_⟩
+          · intro hv _
+            simpa [hv] using hal
+          · intro _ hbit; simp [Leaf.isBit] at hbit
+        · cases h
   | regex id =>
-    simp only [scanImpl] at h
+    simp only [scanV] at h
     split at h
     · cases h
-    · cases h
-    · rename_i l' hne hl
-      simp only [Option.some.injEq, Prod.mk.injEq] at h
-      obtain ⟨rfl, rfl⟩ := h
-      obtain ⟨hle, hR⟩ := ho id (k / 8) l' hl
-      have hlen : ((inp.cells.drop (k / 8)).take l').length = l' := by
-        rw [List.length_take]; exact Nat.min_eq_left hle
-      refine ⟨by simpa [termOk] using hR, ?_, ?_⟩
-      · cases hb : inp.isBytes
-        · simp only [mkLeaf, Leaf.width, hlen, Bool.false_eq_true, if_false]
-        · simp only [mkLeaf, Leaf.width, if_true, List.length_map, hlen]
-      · cases hb : inp.isBytes
-        · simp only [mkLeaf, LeafAt]
-          exact ⟨hb, startsWith_take _ _⟩
-        · simp only [mkLeaf, LeafAt, if_true]
-          refine ⟨hb, ?_⟩
-          rw [map_val_mkByte]
-          · exact startsWith_take _ _
-          · intro c hc'
-            exact hc hb c (List.mem_of_mem_drop (List.mem_of_mem_take hc'))
-
-theorem scanAligned_ok (inp : Input) (R : RegexOracle) (ho : OracleOk inp R) (hc : CellsOk inp)
-    {t : Term} (ht : termTyped inp.isBytes t = true) {k m : Nat} {l : Leaf}
-    (h : scanAligned inp t k = some (m, l)) :
-    termOk R t (.leaf l) = true ∧ m = k + l.width ∧ LeafAt inp k l ∧
-      (l.isBit = false → k % 8 = 0) := by
-  unfold scanAligned at h
-  split at h
-  · obtain ⟨h1, h2, h3⟩ := scanImpl_ok inp R ho hc ht h
-    refine ⟨h1, h2, h3, ?_⟩
-    intro hbit
-    simp only [scanImpl] at h
-    split at h
-    · cases h
-    · split at h
-      · simp only [Option.some.injEq, Prod.mk.injEq] at h
-        obtain ⟨_, rfl⟩ := h
-        simp [Leaf.isBit] at hbit
+    · rename_i hal
+      split at h
       · cases h
-  · split at h
-    · rename_i hk
-      obtain ⟨h1, h2, h3⟩ := scanImpl_ok inp R ho hc ht h
-      exact ⟨h1, h2, h3, fun _ => hk⟩
-    · cases h
+      · rename_i l' hl
+        split at h
+        · cases h
+        · simp only [Option.some.injEq, Prod.mk.injEq] at h
+          obtain ⟨rfl, rfl⟩ := h
+          obtain ⟨hle, hR⟩ := ho id (k / 8) l' hl
+          have hlen : ((inp.cells.drop (k / 8)).take l').length = l' := by
+            rw [List.length_take]; exact Nat.min_eq_left hle
+          refine ⟨by simpa [termOk] using hR, ?_, ?_, ?_, ?_⟩
+          · cases hb : inp.isBytes
+            · simp only [mkLeaf, Leaf.width, hlen, Bool.false_eq_true, if_false]
+            · simp only [mkLeaf, Leaf.width, if_true, List.length_map, hlen]
+          · cases hb : inp.isBytes
+            · simp only [mkLeaf, LeafAt]
+              exact ⟨hb, startsWith_take _ _⟩
+            · simp only [mkLeaf, LeafAt, if_true]
+              refine ⟨hb, ?_⟩
+              rw [map_val_mkByte]
+              · exact startsWith_take _ _
+              · intro c hc'
+                exact hc hb c (List.mem_of_mem_drop (List.mem_of_mem_take hc'))
+          · intro hv _
+            simpa [hv] using hal
+          · intro _ hbit
+            cases hb : inp.isBytes <;> simp [mkLeaf, hb, Leaf.isBit] at hbit
+
+/-- the scanner of the code as it is now -/
+theorem scanImpl_ok (inp : Input) (R : RegexOracle) (ho : OracleOk inp R) (hc : CellsOk inp)
+    {t : Term} (ht : termTyped inp.isBytes t = true) {k m : Nat} {l : Leaf}
+    (h : scanImpl inp t k = some (m, l)) :
+    termOk R t (.leaf l) = true ∧ m = k + l.width ∧ LeafAt inp k l ∧ (l.isBit = false → k % 8 = 0) := by
+  obtain ⟨h1, h2, h3, h4, _⟩ := scanV_ok Variant.now inp R ho hc ht h
+  exact ⟨h1, h2, h3, h4 rfl⟩
 
 /-! ### (B) the terminals of the compiled table are typed -/
 
@@ -414,7 +455,7 @@ theorem typed_of_symOf {b : Bool} {c : Node} {t : Term} (hc : nodeTyped b c = tr
   subst this
   simpa [nodeTyped] using hc
 
-theorem ctlRules_typed {cap : Nat} {b : Bool} {n : Node} {rhs : List ESym} {t : Term}
+theorem ctlRules_typed {cap : Option Nat} {b : Bool} {n : Node} {rhs : List ESym} {t : Term}
     (hn : nodeTyped b n = true) (hr : rhs ∈ ctlRules cap n) (hm : ESym.t t ∈ rhs) :
     termTyped b t = true := by
   cases n with
@@ -451,11 +492,13 @@ theorem ctlRules_typed {cap : Nat} {b : Bool} {n : Node} {rhs : List ESym} {t : 
       · simp only [List.mem_singleton] at hm
         exact typed_of_symOf hn hm
     | braces =>
-      simp only [ctlRules, List.mem_singleton] at hr
-      subst hr
-      simp [ESym.plain] at hm
+      simp only [ctlRules] at hr
+      split at hr <;>
+      · simp only [List.mem_singleton] at hr
+        subst hr
+        simp [ESym.plain] at hm
 
-theorem implRules_typed {cap : Nat} {b : Bool} {n : Node} {j : Nat} {rhs : List ESym} {t : Term}
+theorem implRules_typed {cap : Option Nat} {b : Bool} {n : Node} {j : Nat} {rhs : List ESym} {t : Term}
     (hn : nodeTyped b n = true) (hr : rhs ∈ implRules cap n j) (hm : ESym.t t ∈ rhs) :
     termTyped b t = true := by
   cases n with
@@ -495,7 +538,7 @@ theorem implRules_typed {cap : Nat} {b : Bool} {n : Node} {j : Nat} {rhs : List 
       · exact typed_of_symOf hn h
       · simp [ESym.plain] at h
 
-theorem mem_implsOf {cap : Nat} {n : Node} {y : NT} (h : y ∈ implsOf cap n) : ∃ j, y = .impl n j := by
+theorem mem_implsOf {cap : Option Nat} {n : Node} {y : NT} (h : y ∈ implsOf cap n) : ∃ j, y = .impl n j := by
   cases n with
   | rep i k body mn mx =>
     cases k with
@@ -509,7 +552,7 @@ theorem mem_implsOf {cap : Nat} {n : Node} {y : NT} (h : y ∈ implsOf cap n) : 
   | _ => simp [implsOf] at h
 
 mutual
-theorem subNTs_typed {cap : Nat} {b : Bool} : ∀ (node : Node) {y : NT},
+theorem subNTs_typed {cap : Option Nat} {b : Bool} : ∀ (node : Node) {y : NT},
     nodeTyped b node = true → y ∈ subNTs cap node →
     ∃ n, (y = .ctl n ∨ ∃ j, y = .impl n j) ∧ nodeTyped b n = true
   | .term _, y, _, hy => by simp [subNTs] at hy
@@ -531,7 +574,7 @@ theorem subNTs_typed {cap : Nat} {b : Bool} : ∀ (node : Node) {y : NT},
     · obtain ⟨j, rfl⟩ := mem_implsOf hy
       exact ⟨_, .inr ⟨j, rfl⟩, hn⟩
     · exact subNTs_typed body (by simpa only [nodeTyped] using hn) hy
-theorem subNTsL_typed {cap : Nat} {b : Bool} : ∀ (ns : List Node) {y : NT},
+theorem subNTsL_typed {cap : Option Nat} {b : Bool} : ∀ (ns : List Node) {y : NT},
     nodesTyped b ns = true → y ∈ subNTsL cap ns →
     ∃ n, (y = .ctl n ∨ ∃ j, y = .impl n j) ∧ nodeTyped b n = true
   | [], y, _, hy => by simp [subNTsL] at hy
@@ -543,7 +586,7 @@ theorem subNTsL_typed {cap : Nat} {b : Bool} : ∀ (ns : List Node) {y : NT},
     · exact subNTsL_typed ns hn.2 hy
 end
 
-theorem compile_terms_typed (G : Grammar) (cap : Nat) (b : Bool) (ht : Grammar.typed G b = true)
+theorem compile_terms_typed (G : Grammar) (cap : Option Nat) (b : Bool) (ht : Grammar.typed G b = true)
     {x : NT} {rhs : List ESym} {t : Term} (hr : (x, rhs) ∈ compile G cap) (hm : ESym.t t ∈ rhs) :
     termTyped b t = true := by
   obtain ⟨hx, hrhs⟩ := mem_compile_iff.1 hr
